@@ -1004,7 +1004,7 @@ impl Ctx {
         for e in &self.events {
             match e {
                 Ev::Drop { id, .. } => *drops.entry(*id).or_default() += 1,
-                Ev::Dealloc { addr, status, size, align, rsize, ralign } => {
+                Ev::Dealloc { addr, status, size, align, rsize, ralign, .. } => {
                     *frees.entry(*addr).or_default() += 1;
                     if *status == 1 {
                         self.errors.push(format!(
@@ -1164,7 +1164,7 @@ impl Ctx {
             }
         }
         for e in &self.events {
-            if let Ev::Dealloc { status, addr, size, align, rsize, ralign } = e {
+            if let Ev::Dealloc { status, addr, size, align, rsize, ralign, .. } = e {
                 if *status != 0 {
                     let m = format!(
                         "[layout] drain: block {:#x} requested (size {}, align {}), released (size {}, align {}), status {}",
